@@ -23,6 +23,13 @@
 //!   iphc_parse lls=<LL> lld=<LL> ctx=<hex8,hex8,..|-> <hex>
 //!        SixlowpanIphcPacket::new_checked + SixlowpanIphcRepr::parse
 //!        -> `r E` | `r src=<hex16> dst=<hex16> nh=<c|proto> hl=<u8> tf=<ecn|->/<dscp|->/<fl|-> hlen=<n>`
+//!   ext_emit id=<0..5|7> nh=<c|proto> len=<u8> fill=<u8> extra=<n>
+//!        SixlowpanExtHeaderRepr::emit into buffer_len()+extra octets filled with `fill`, then the
+//!        ext_parse observation of the emitted buffer  -> `r <buffer_len> <hex> | <ext_parse result>`
+//!        (id = the number set_extension_header_id writes: HopByHop 0 .. Mobility 4, Reserved 5, Header 7)
+//!   ext_parse <hex>
+//!        SixlowpanExtHeaderPacket::new_checked + SixlowpanExtHeaderRepr::parse + payload()
+//!        -> `r E` | `r id=<n> nh=<c|proto> len=<u8> blen=<n> pl=<hex>`
 //!   LL = `-` (None) | `a` (Absent) | `s:<hex2>` | `e:<hex8>`
 use smoltcp::iface::{Config, Interface, SocketSet};
 use smoltcp::phy::{ChecksumCapabilities, Medium};
@@ -99,6 +106,47 @@ fn nh_parse(s: &str) -> SixlowpanNextHeader {
         SixlowpanNextHeader::Compressed
     } else {
         SixlowpanNextHeader::Uncompressed(IpProtocol::from(s.parse::<u8>().unwrap()))
+    }
+}
+
+fn ext_id_parse(n: u64) -> SixlowpanExtHeaderId {
+    match n {
+        0 => SixlowpanExtHeaderId::HopByHopHeader,
+        1 => SixlowpanExtHeaderId::RoutingHeader,
+        2 => SixlowpanExtHeaderId::FragmentHeader,
+        3 => SixlowpanExtHeaderId::DestinationOptionsHeader,
+        4 => SixlowpanExtHeaderId::MobilityHeader,
+        5 => SixlowpanExtHeaderId::Reserved,
+        7 => SixlowpanExtHeaderId::Header,
+        x => panic!("bad ext id {}", x),
+    }
+}
+fn ext_id_show(i: SixlowpanExtHeaderId) -> u8 {
+    match i {
+        SixlowpanExtHeaderId::HopByHopHeader => 0,
+        SixlowpanExtHeaderId::RoutingHeader => 1,
+        SixlowpanExtHeaderId::FragmentHeader => 2,
+        SixlowpanExtHeaderId::DestinationOptionsHeader => 3,
+        SixlowpanExtHeaderId::MobilityHeader => 4,
+        SixlowpanExtHeaderId::Reserved => 5,
+        SixlowpanExtHeaderId::Header => 7,
+    }
+}
+fn ext_parse_show(b: &[u8]) -> String {
+    let p = match SixlowpanExtHeaderPacket::new_checked(b) {
+        Ok(p) => p,
+        Err(_) => return "E".into(),
+    };
+    match SixlowpanExtHeaderRepr::parse(&p) {
+        Err(_) => "E".into(),
+        Ok(r) => format!(
+            "id={} nh={} len={} blen={} pl={}",
+            ext_id_show(r.ext_header_id),
+            nh_show(&r.next_header),
+            r.length,
+            r.buffer_len(),
+            hex(p.payload())
+        ),
     }
 }
 
@@ -222,6 +270,17 @@ fn wire_op(op: &str) -> String {
                     }
                 }
             }
+            "ext_emit" => {
+                let repr = SixlowpanExtHeaderRepr {
+                    ext_header_id: ext_id_parse(kvi(&t, "id") as u64),
+                    next_header: nh_parse(kv(&t, "nh")),
+                    length: kvi(&t, "len") as u8,
+                };
+                let mut buf = vec![kvi(&t, "fill") as u8; repr.buffer_len() + kvi(&t, "extra") as usize];
+                repr.emit(&mut SixlowpanExtHeaderPacket::new_unchecked(&mut buf[..]));
+                format!("{} {} | {}", repr.buffer_len(), hex(&buf), ext_parse_show(&buf))
+            }
+            "ext_parse" => ext_parse_show(&unhex(last(&t))),
             x => panic!("unknown wire op {}", x),
         }
     }));
@@ -431,7 +490,55 @@ fn mutate(rng: &mut Rng, b: &mut Vec<u8>) {
 const WITH_IPHC: bool = true;
 
 fn gen_wire_op(rng: &mut Rng) -> String {
-    match rng.below(if WITH_IPHC { 12 } else { 8 }) {
+    match rng.below(if WITH_IPHC { 14 } else { 8 }) {
+        12 => {
+            let len = match rng.below(4) {
+                0 => 0,
+                1 => rng.range(1, 9) as u8,
+                2 => *rng.pick(&[8u8, 16, 254, 255]),
+                _ => rng.next() as u8,
+            };
+            // the buffer holds the header plus, usually, the announced octets (sometimes one short / one more)
+            let extra = match rng.below(6) {
+                0 => 0,
+                1 => (len as u64).saturating_sub(1),
+                2 => len as u64 + 1,
+                _ => len as u64,
+            };
+            format!(
+                "ext_emit id={} nh={} len={} fill={} extra={}",
+                *rng.pick(&[0u8, 1, 2, 3, 4, 5, 7]),
+                match rng.below(4) {
+                    0 | 1 => "c".to_string(),
+                    2 => rng.pick(&[0u8, 6, 17, 43, 44, 58, 59, 60, 255]).to_string(),
+                    _ => (rng.next() as u8).to_string(),
+                },
+                len,
+                *rng.pick(&[0u8, 0xff, 0xa5, 0x5a, 0x1f, 0xe0, 0x0e, 0xf1]),
+                extra
+            )
+        }
+        13 => {
+            // a well-formed NHC extension header (any 3-bit id, either next-header form), then mutated
+            let mut b = vec![];
+            let nh = rng.chance(1, 2) as u8;
+            b.push(0xe0 | ((rng.below(8) as u8) << 1) | nh);
+            if nh == 0 {
+                b.push(rng.next() as u8);
+            }
+            let len = if rng.chance(1, 2) { rng.below(12) as u8 } else { rng.next() as u8 };
+            b.push(len);
+            let have = match rng.below(5) {
+                0 => (len as usize).saturating_sub(1),
+                1 => len as usize + 2,
+                _ => len as usize,
+            };
+            b.extend(rng.bytes(have));
+            if rng.chance(1, 3) {
+                mutate(rng, &mut b);
+            }
+            format!("ext_parse {}", hex(&b))
+        }
         0 | 1 => {
             let k = if rng.chance(1, 2) { "1" } else { "n" };
             format!(
